@@ -51,8 +51,43 @@ type c14Res struct {
 	err error
 }
 
+// c14HookConn lets a history place a cancellation exactly where `Read` clears the read deadline: when armed, the clearing
+// call first cancels the read's context and waits until the cancellation has set its own deadline — the cancellation lands
+// after the read has started and before its deadline is cleared (a stop arriving while a relay direction enters Read).
+type c14HookConn struct {
+	net.Conn
+	mu     sync.Mutex
+	armed  context.CancelFunc
+	sawNow chan struct{}
+}
+
+func (h *c14HookConn) SetReadDeadline(t time.Time) error {
+	h.mu.Lock()
+	armed, saw := h.armed, h.sawNow
+	if t.IsZero() {
+		h.armed = nil
+	}
+	h.mu.Unlock()
+	if t.IsZero() && armed != nil {
+		armed()
+		select {
+		case <-saw: // the cancellation's deadline is in place; now it is overwritten
+		case <-time.After(time.Second):
+		}
+		return h.Conn.SetReadDeadline(t)
+	}
+	if !t.IsZero() && saw != nil {
+		select {
+		case saw <- struct{}{}:
+		default:
+		}
+	}
+	return h.Conn.SetReadDeadline(t)
+}
+
 func c14ReadCase(tr *vh.Transcript, ops []string) {
-	client, peer := net.Pipe()
+	client0, peer := net.Pipe()
+	client := &c14HookConn{Conn: client0, sawNow: make(chan struct{}, 1)}
 	conn := CreateConnection(client, "pipe", time.Hour, time.Hour, vh.NopLog())
 	sendQ := make(chan []byte, 4096)
 	go func() {
@@ -111,6 +146,36 @@ func c14ReadCase(tr *vh.Transcript, ops []string) {
 			check()
 			if reading {
 				tr.Out("blocked")
+			}
+		case "readx": // a Read whose context is cancelled between its start and the clearing of its deadline
+			if reading {
+				tr.Out("busy")
+				continue
+			}
+			var ctx context.Context
+			ctx, cancel = context.WithCancel(context.Background())
+			client.mu.Lock()
+			client.armed = cancel
+			client.mu.Unlock()
+			resCh = make(chan c14Res, 1)
+			rc := resCh
+			go func() {
+				m, err := conn.Read(ctx)
+				rc <- c14Res{m, err}
+			}()
+			reading = true
+			synctest.Wait()
+			time.Sleep(2 * time.Second)
+			synctest.Wait()
+			check()
+			if reading {
+				tr.Out("blocked-with-a-cancelled-context")
+				// the history cannot go on: the read lock is held for ever
+				conn.Close()
+				peer.Close()
+				close(sendQ)
+				synctest.Wait()
+				return
 			}
 		case "cancel":
 			if !reading {
@@ -309,6 +374,9 @@ func c14GenRead(r *vh.Rng) []string {
 		if r.Bool(10) {
 			ops = append(ops, "cancel", "read", "cancel")
 		}
+		if r.Bool(6) {
+			ops = append(ops, "readx")
+		}
 	}
 	for i := 0; i < nLines+2; i++ {
 		ops = append(ops, "read")
@@ -366,7 +434,7 @@ func c14Bubble(t *testing.T, tr *vh.Transcript, kind string, ops []string) {
 
 func c14KindOf(ops []string) string {
 	for _, o := range ops {
-		if strings.HasPrefix(o, "send") || o == "read" || o == "cancel" {
+		if strings.HasPrefix(o, "send") || o == "read" || o == "cancel" || o == "readx" {
 			return "read"
 		}
 	}
